@@ -272,7 +272,17 @@ pub fn sfacts(recs: &[Rec]) -> SFacts {
                 }
                 // ... and a refusal whose write failed is still a refusal (the peer will not see it,
                 // which is the transport's failure, reported as such)
-                if let (Op::Send, Some(Msg::Resp { id, body: Err(_) })) = (op, msg) {
+                if let (Op::Send, Some(Msg::Resp { body: Err((_, d)), .. })) = (op, msg) {
+                    if let Some(tok) = d.strip_prefix("handler-err:").and_then(|t| t.parse::<u32>().ok()) {
+                        if let Some(o) = f.inst.get_mut(&tok) {
+                            o.resp.push(i);
+                        }
+                    }
+                }
+                if let (Op::Send, Some(Msg::Resp { id, body: Err((_, d)) })) = (op, msg).clone() {
+                    if d.starts_with("handler-err:") {
+                        continue;
+                    }
                     let p = f.inst.values().filter(|o| o.id == *id && o.yielded.is_none() && o.throttled.is_none()).map(|o| o.p).last();
                     if let Some(p) = p {
                         f.inst.get_mut(&p).unwrap().throttled = Some(i);
@@ -286,6 +296,12 @@ pub fn sfacts(recs: &[Rec]) -> SFacts {
                     match body {
                         Ok(tok) if *tok >= 5000 => {
                             if let Some(o) = f.inst.get_mut(&(tok - 5000)) {
+                                o.resp.push(i);
+                            }
+                        }
+                        Err((_, d)) if d.starts_with("handler-err:") => {
+                            // a handler's rejection: a response like any other
+                            if let Some(o) = d["handler-err:".len()..].parse::<u32>().ok().and_then(|t| f.inst.get_mut(&t)) {
                                 o.resp.push(i);
                             }
                         }
@@ -1440,6 +1456,18 @@ pub fn configs(prop: SProp, tier: Tier) -> Vec<SCfg> {
                     }
                 }
             }
+            // request ids need not arrive in increasing order (two threads sharing a client draw
+            // their ids before they hand their requests over): a cancellation is honoured
+            // whatever the order (seeded change C04n ignored cancellations for ids above the
+            // id of the request started last)
+            for ids in [vec![1u64, 0], vec![2, 0, 1], vec![7, 3], vec![u64::MAX, 0]] {
+                for route in [Route::Requests, Route::Execute] {
+                    let reqs: Vec<ReqCfg> = ids.iter().map(|id| ReqCfg::simple(*id, false)).collect();
+                    let mut c = base(reqs, None, 1, Flavour::Always, 1, alpha);
+                    c.route = route;
+                    out.push(c);
+                }
+            }
             // the sink (one slot, not drained) and the response buffer (one slot) are full of finished
             // responses when the cancellation of a third, running request arrives: it is read and
             // acted on all the same (seeded change C04i / C06g stopped reading while the response
@@ -1481,6 +1509,16 @@ pub fn configs(prop: SProp, tier: Tier) -> Vec<SCfg> {
                 for (f0, f1) in [(false, true), (true, true), (true, false)] {
                     let mk = |id: u64, d: i64, fin: bool| ReqCfg { deadline_ms: d, ..ReqCfg::simple(id, fin) };
                     let reqs = vec![mk(0, 10_000, true), mk(1, 1, f0), mk(2, 1, f1), mk(3, 10_000, true)];
+                    out.push(base(reqs, None, rb, Flavour::Coupled, 1, alpha));
+                }
+            }
+            // the same with handlers whose result is a rejection (Err): a rejection buffered before
+            // the deadline is a response like any other - it is not transmitted once the request
+            // has expired (seeded change C06n let untracked error replies through)
+            for rb in [1usize] {
+                for (e1, e2) in [(true, false), (true, true)] {
+                    let mk = |id: u64, d: i64, fails: bool| ReqCfg { deadline_ms: d, fails, ..ReqCfg::simple(id, true) };
+                    let reqs = vec![mk(0, 10_000, false), mk(1, 1, e1), mk(2, 50, e2), mk(3, 10_000, true)];
                     out.push(base(reqs, None, rb, Flavour::Coupled, 1, alpha));
                 }
             }
@@ -1749,6 +1787,7 @@ pub fn configs(prop: SProp, tier: Tier) -> Vec<SCfg> {
                                             hk: kinds[i % 3],
                                             cancel: false,
                                             at_ms: None,
+                                            fails: false,
                                         });
                                     }
                                     if !thorough {
